@@ -230,7 +230,9 @@ class CoordPayload():
         if isinstance(other, CoordPayload):
             self.payload <<= other.payload
         else:
-            self.payload <<= self.payload + other
+            self.payload <<= other
+
+        return self
 
 
     #
